@@ -181,3 +181,12 @@ MUTANTS += [
  ('C03', 'check-current-compares-ge', 'BaseStorage.py', "    committed_tid = self.getTid(oid)\n    if committed_tid != serial:", "    committed_tid = self.getTid(oid)\n    if committed_tid < serial:"),
  ('C03', 'resolution-uses-new-as-committed', 'ConflictResolution.py', "        resolved = resolve(old, committed, newstate)", "        resolved = resolve(old, newstate, newstate)"),
 ]
+CRM = 'ConflictResolution.py'
+MUTANTS += [
+ ('C10', 'store-swaps-serials', FS, "                    data = self.tryToResolveConflict(oid, committed_tid,\n                                                     oldserial, data)", "                    data = self.tryToResolveConflict(oid, oldserial,\n                                                     committed_tid, data)"),
+ ('C10', 'new-state-as-committed', CRM, "        resolved = resolve(old, committed, newstate)", "        resolved = resolve(old, newstate, committed)"),
+ ('C10', 'persistent-id-drops-weak', CRM, "def persistent_id(object):\n    if getattr(object, '__class__', 0) is not PersistentReference:\n        return None\n    return object.data", "def persistent_id(object):\n    if getattr(object, '__class__', 0) is not PersistentReference:\n        return None\n    d = object.data\n    if isinstance(d, list) and d[0] == 'w':\n        return d[1][0]\n    return d"),
+ ('C10', 'unresolvable-exception-swallowed-returns-new', CRM, "        logger.exception(\n            \"Unexpected error while trying to resolve conflict on %s\", klass)\n", "        logger.exception(\n            \"Unexpected error while trying to resolve conflict on %s\", klass)\n        return newpickle\n"),
+ ('C10', 'unresolvable-cache-poisons-resolvable', CRM, "        if klass in _unresolvable:\n            raise ConflictError", "        if _unresolvable:\n            raise ConflictError"),
+ ('C10', 'old-state-from-committed-serial', CRM, "        oldData = self.loadSerial(oid, oldSerial)", "        oldData = self.loadSerial(oid, committedSerial)"),
+]
